@@ -7,7 +7,7 @@ def excStoreOrder : Nat := 3
 def excLoadOrder : Nat := 2
 def execSkel : List Nat := [1, 1, 1, 1, 0, 1, 2, 1, 1, 1, 1]
 def graphSkel : List Nat := [1, 1, 1, 1, 1, 1, 1, 1, 1, 1, 1]
-def pipeSkel : List Nat := [1, 1, 1, 1, 1, 1, 1, 1, 0]
+def pipeSkel : List Nat := [1, 1, 1, 1, 1, 1, 1, 1, 1]
 def tgSkel : List Nat := [1, 1, 1, 1, 1, 1]
 def catchSkel : List Nat := [1, 1, 1]
 
